@@ -70,6 +70,12 @@ class Codec:
             return raw[:-1]
         if self.mode == 'json':
             return json.loads(raw.decode())
+        # bin: any buffer is a record - bytes, a bytearray, a buffer whose items are wider than one byte / has two dimensions
+        if rid % 3 == 1:
+            return bytearray(raw)
+        if rid % 3 == 2:
+            import numpy as np
+            return np.frombuffer(raw, np.uint8).reshape(cells, self.unit)
         return raw
 
     def cells_of_raw(self, raw):
@@ -660,7 +666,9 @@ class Replayer:
             p = self.saved.get(o)
             objs[o]['pos'] = ({'k': 'none', 'ts': 0, 'off': 0} if p is None else
                               {'k': 'start', 'ts': 0, 'off': 0} if p[0] == 'start' else
-                              {'k': 'file', 'ts': self.ts_of_name(p[0]), 'off': _div(p[1], u)})
+                              {'k': 'end', 'ts': 0, 'off': 0} if p[0] == 'end' else       # the documented special value of seek()
+                              {'k': 'file', 'ts': self.ts_of_name(p[0]),
+                               'off': _div(p[1], u) if isinstance(p[1], int) else str(p[1])})
         wo = self.objs[W]
         res = {'dir': d, 'objs': objs, 'wopen': wo.write_file not in (None, False),
                'total': _div(wo.logfiles_size, u)}
